@@ -441,8 +441,7 @@ package iavl
 //@   ensures [first] err == nil ==> ndb.firstVersion == ite(old(ndb.firstVersion) <= toVersion, toVersion + 1, old(ndb.firstVersion))
 //@   ensures [refused] old(ndb.latestVersion) <= toVersion ==> ndb.firstVersion == old(ndb.firstVersion) && ndb.latestVersion == old(ndb.latestVersion)
 //@   loop 2 invariant ndb.firstVersion == version && version >= first && (version == first || version <= toVersion + 1) && first == old(ndb.firstVersion)
-//@   callsite fmt.Errorf@1 [latest-refused-before-any-effect] ndb.firstVersion == old(ndb.firstVersion) && ndb.latestVersion == old(ndb.latestVersion)
-//@   callsite fmt.Errorf@2 [pinned-refused-before-any-effect] ndb.firstVersion == old(ndb.firstVersion) && ndb.latestVersion == old(ndb.latestVersion)
+//@   callsite fmt.Errorf [refused-before-any-effect] ndb.firstVersion == old(ndb.firstVersion) && ndb.latestVersion == old(ndb.latestVersion)
 //@   callsite nodeDB).deleteVersion [only-requested-never-latest] arg1 >= old(ndb.firstVersion) && arg1 <= toVersion && arg1 < old(ndb.latestVersion) && arg1 == ndb.firstVersion
 //@   modifies *
 
